@@ -1,5 +1,6 @@
 import MaltModel.Proofs.C17Inst
 import MaltModel.Conv.TemplateHyp
+import MaltModel.Conv.SrcClass
 import MaltModel.Generated.Templates
 /-
 C17 — generated code is a well-formed tree that loads as what `to_code` shows.
@@ -268,5 +269,59 @@ theorem C17_gen_template_fresh_partial (p : String × List Stmt × List String) 
     (b : Bindings) (r : List Stmt) (ha : argsOkSs b p.2.1 = true) (h : instantiate p.2.1 b = .ok r) :
     (labelsSs r).Nodup ∧ (∀ l ∈ labelsSs r, l ∉ bindingLabels b) :=
   C17_template_fresh_partial p.2.1 b r ha h
+
+/-! ## 5. two `Feature.LISTS` converter steps whose use of a template is only right in some positions
+
+Both were found by the verified checker on real output; the class predicates (`Conv/SrcClass.lean`) are evaluated by the
+driver on the source function of a failing case. -/
+
+/-- lists.py `visit_List` replaces a list display `e` by `replace_as_expression('ag__.new_list(elements)', elements=e)`.
+The replacement is well-formed where `e` stood PROVIDED that position is a `Load` position.  FULL statement (false of the
+pinned code, counterexample below): for every position `c`.  Finding class `lists_list_display_in_store_position`
+= ¬ hypothesis `hc` (`SrcClass.hasStoreListDisplay`). -/
+theorem C17_lists_new_list_partial (e r : Expr) (c : Ctx) (hc : c = .load) (hw : WfE c e) (hx : useOk .load e = true)
+    (h : instantiateExpr Malt.Gen.tmpl_lists_visit_List_0 [("elements", .node e)] = .ok r) : WfE c r := by
+  subst hc
+  refine C17_template_ctx_expr_partial _ [("elements", .node e)] r (by decide) ?_ ?_ h
+  · intro p hp
+    simp only [List.mem_cons, List.not_mem_nil, or_false] at hp
+    subst hp
+    exact ⟨.load, hw⟩
+  · simp [Malt.Gen.tmpl_lists_visit_List_0, usesOkSs, usesOkS, usesOkE, usesOkEs, List.lookup, Binding.exprs, hx]
+
+/-- `[x, y] = v`: the display stands in a `Store` position, the replacement is a call. -/
+theorem C17_lists_new_list_counterexample :
+    ∃ (e r : Expr), WfE .store e ∧ useOk .load e = true ∧
+      instantiateExpr Malt.Gen.tmpl_lists_visit_List_0 [("elements", .node e)] = .ok r ∧ ¬ WfE .store r :=
+  ⟨.seq 1 .list [.name 2 "x" .store, .name 3 "y" .store] .store,
+   .call 5 (.attr 6 (.name 7 "ag__" .load) "new_list" .load) [.seq 8 .list [.name 9 "x" .load, .name 10 "y" .load] .load] [],
+   by decide, by decide, by rfl, by decide⟩
+
+/-- lists.py `_replace_append_call` replaces the call `X.append(e)` by `templates.replace('target = ag__.list_append(target,
+element)', …)`: whatever is bound, the result is ONE ASSIGNMENT STATEMENT — it can only stand where a statement can, i.e.
+when the call was the value of an expression statement.  Finding class `lists_append_call_in_expression_position`
+(`SrcClass.appendInExprPosition`): the call is an operand of a larger expression. -/
+theorem C17_lists_append_replacement_is_statement (b : Bindings) (r : List Stmt)
+    (h : instantiate Malt.Gen.tmpl_lists_replace_append_call_0 b = .ok r) : ∃ i ts v, r = [.assign i ts v] := by
+  unfold instantiate at h
+  split at h
+  · rename_i r' n' hi
+    simp only [Except.ok.injEq] at h
+    subst h
+    simp only [Malt.Gen.tmpl_lists_replace_append_call_0, instSs, instS, R.bind_ok, single_ok] at hi
+    obtain ⟨l, n1, ⟨ts, m0, _, v, m1, _, hres⟩, rest, n2, hnil, hfin⟩ := hi
+    simp only [Except.ok.injEq, Prod.mk.injEq] at hres hnil hfin
+    obtain ⟨rfl, rfl⟩ := hres
+    obtain ⟨rfl, rfl⟩ := hnil
+    obtain ⟨rfl, rfl⟩ := hfin
+    exact ⟨_, ts, v, rfl⟩
+  · simp at h
+
+example : Malt.Conv.SrcClass.appendInExprPosition
+    (.expr 1 (.call 2 (.name 3 "tr" .load) [.call 4 (.attr 5 (.name 6 "l" .load) "append" .load) [.name 7 "a" .load] []] [])) = true ∧
+  Malt.Conv.SrcClass.appendInExprPosition
+    (.expr 1 (.call 4 (.attr 5 (.name 6 "l" .load) "append" .load) [.name 7 "a" .load] [])) = false ∧
+  Malt.Conv.SrcClass.hasStoreListDisplay
+    (.assign 1 [.seq 2 .list [.name 3 "x" .store] .store] (.seq 4 .list [.name 5 "a" .load] .load)) = true := by decide
 
 end Malt.Props.C17
